@@ -12,6 +12,7 @@ mod h_ticket;
 mod h_timeline;
 mod hist;
 mod p_adaptive;
+mod q_acl;
 mod q_page;
 mod q_recall;
 mod q_valid;
@@ -76,6 +77,7 @@ fn main() {
         "C09" => q_recall::run_c09(tier, replay),
         "C10" => q_valid::run(tier, replay),
         "C11" => q_recall::run_c11(tier, replay),
+        "C12" => q_acl::run(tier, replay),
         "C13" => q_vec::run(tier, replay),
         "C14" => h_c01::run_c14(tier, replay),
         "C15" => h_timeline::run(tier, replay),
